@@ -122,6 +122,7 @@ Qed.
    [remove_spec_statement bits]. *)
 From Stevia Require Import Avl.Impl Avl.Tree Avl.Spec Avl.Alloc Avl.Inv Avl.LinkInsert Avl.LinkSteps
   Avl.Master Avl.Clauses Avl.Capacity.
+From Stevia Require Import Avl.FinalMaster.
 
 (* inserting a list of entries one after the other, directly and as a
    history of the operation language *)
@@ -211,6 +212,28 @@ Theorem C07_avl_capacity_exact_reachable : forall bits, remove_spec_statement bi
 Proof. exact fill_exact_reachable. Qed.
 Print Assumptions C07_avl_capacity_exact_reachable.
 
+(* the premise discharged (Avl/FinalMaster.v) *)
+Theorem C07_avl_capacity_exact_reachable_final : forall bits capacity ops s,
+  okbits bits -> capacity < 2 ^ bits -> (bits <> 8 -> capacity + 1 < 2 ^ bits) ->
+  Forall no_ext ops -> final_c bits (init_c capacity capacity) ops = Ok s ->
+  exists t fr term,
+    Inv bits s t fr term /\ settled s /\ cap s = capacity /\
+    (forall k, get s k = Ok (sm_find (inorder t) k, t_log t k)) /\
+    (is_full s = true <-> size s = capacity) /\ size s <= capacity /\
+    forall kvs,
+      NoDup (map fst kvs) -> (forall k, In k (map fst kvs) -> sm_find (inorder t) k = None) ->
+      N.of_nat (length kvs) = capacity - size s ->
+      exists s' slots t' fr' term',
+        run_c bits s (ins_ops kvs) = map Ok (map (fun i => RSlot (Some i)) slots) /\
+        final_c bits s (ins_ops kvs) = Ok s' /\ length slots = length kvs /\
+        Inv bits s' t' fr' term' /\ size s' = capacity /\ is_full s' = true /\
+        (forall k v, sm_find (inorder t) k = Some v -> sm_find (inorder t') k = Some v) /\
+        (forall k v, In (k, v) kvs -> sm_find (inorder t') k = Some v) /\
+        NoDup (slots ++ idxs t) /\
+        (forall k v, step_c bits s' (OInsert k v) = Ok (s', RSlot None, t_log t' k)).
+Proof. exact fill_exact_reachable_final. Qed.
+Print Assumptions C07_avl_capacity_exact_reachable_final.
+
 (* is_full is true exactly when n = c *)
 Theorem C07_avl_is_full_iff : forall bits s t fr term,
   Inv bits s t fr term -> (is_full s = true <-> size s = cap s) /\ size s <= cap s.
@@ -252,6 +275,21 @@ Theorem C07_avl_released_slot_reused : forall bits, remove_spec_statement bits -
         Inv bits s2 (t_insert (t_remove t k) slot k2 v2) fr term2.
 Proof. exact released_slot_reused. Qed.
 Print Assumptions C07_avl_released_slot_reused.
+
+(* the premise discharged (Avl/FinalMaster.v) *)
+Theorem C07_avl_released_slot_reused_final : forall bits s t fr term k slot v,
+  Inv bits s t fr term -> okbits bits -> t_find t k = Some (slot, v) ->
+  exists s' term',
+    remove bits s k = Ok (s', Some v, t_log t k) /\
+    Inv bits s' (t_remove t k) (slot :: fr) term' /\
+    In slot (idxs t) /\ ~ In slot (idxs (t_remove t k)) /\
+    cap s' = cap s /\ size s' + 1 = size s /\ is_full s' = false /\
+    forall k2 v2, t_find (t_remove t k) k2 = None ->
+      exists s2 term2,
+        insert bits s' k2 v2 = Ok (s2, Some slot, t_log (t_remove t k) k2) /\
+        Inv bits s2 (t_insert (t_remove t k) slot k2 v2) fr term2.
+Proof. exact released_slot_reused_final. Qed.
+Print Assumptions C07_avl_released_slot_reused_final.
 
 (* non-vacuity: capacity 5, a free list of mixed age (slots 3 then 1)
    together with a cursor that has not reached the end (sequence 5 of 6);
